@@ -20,10 +20,22 @@ import (
 	"symx/load"
 )
 
-const (
-	repoDir  = "/repo"
+// repoDir is the tree under check; VX_REPO overrides it (used only to run a
+// check against a scratch worktree carrying a seeded change). outDir receives
+// evidence/ and replays/; VX_OUT overrides it so that such runs never touch the
+// evidence of /repo itself.
+var (
+	repoDir  = envOr("VX_REPO", "/repo")
 	verifDir = "/verif"
+	outDir   = envOr("VX_OUT", "/verif")
 )
+
+func envOr(k, d string) string {
+	if v := os.Getenv(k); v != "" {
+		return v
+	}
+	return d
+}
 
 func harnessRoot() string { return filepath.Join(verifDir, "harness") }
 
@@ -199,7 +211,11 @@ func (r *replayer) run(file string, rf *ReplayFile) (bool, string) {
 	if err := r.prepare(); err != nil {
 		return false, "replay setup: " + err.Error()
 	}
-	cmd := exec.Command("go1.26.8", "test", "-vet=off", "-count=8", "-timeout=300s", "-overlay", r.ovPath, "-run", "^TestVxReplay$", "./"+rf.Pkg)
+	count := "-count=8"
+	if rf.Kind == "observe" {
+		count = "-count=1"
+	}
+	cmd := exec.Command("go1.26.8", "test", "-vet=off", "-v", count, "-timeout=300s", "-overlay", r.ovPath, "-run", "^TestVxReplay$", "./"+rf.Pkg)
 	cmd.Dir = repoDir
 	cmd.Env = append(os.Environ(), "GOFLAGS=-mod=mod", "GOPROXY=off", "GOTOOLCHAIN=local", "VX_REPLAY="+file)
 	out, _ := cmd.CombinedOutput()
@@ -300,8 +316,8 @@ func cmdExplore(args []string) int {
 }
 
 func printResult(res *interp.Result, verbose bool) {
-	fmt.Printf("paths=%d completed=%d pruned=%d panics=%d budget=%d asserts=%d discharged=%d inconclusive=%d decisions=%d steps=%d queries=%d solver=%.1fs maxq=%.2fs wall=%.1fs truncated=%v\n",
-		res.Paths, res.Completed, res.Pruned, res.Panics, res.BudgetCuts, res.Asserts, res.Discharged, res.Inconclusive, res.Decisions, res.Steps, res.SolverQueries, res.SolverTime.Seconds(), res.MaxQuery.Seconds(), res.Wall.Seconds(), res.Truncated)
+	fmt.Printf("paths=%d completed=%d pruned=%d panics=%d budget=%d asserts=%d discharged=%d inconclusive=%d decisions=%d steps=%d queries=%d solver=%.1fs maxq=%.2fs wall=%.1fs truncated=%v fallbacks=%d\n",
+		res.Paths, res.Completed, res.Pruned, res.Panics, res.BudgetCuts, res.Asserts, res.Discharged, res.Inconclusive, res.Decisions, res.Steps, res.SolverQueries, res.SolverTime.Seconds(), res.MaxQuery.Seconds(), res.Wall.Seconds(), res.Truncated, res.Fallbacks)
 	fmt.Printf("reached=%v\n", res.Reached)
 	for k, n := range res.Unsupported {
 		fmt.Printf("UNSUPPORTED x%d: %s\n", n, k)
@@ -344,6 +360,7 @@ type exploreSummary struct {
 	Queries      int            `json:"solver_queries"`
 	SolverS      float64        `json:"solver_s"`
 	MaxQueryS    float64        `json:"max_query_s"`
+	Fallbacks    int            `json:"unknowns_resolved_by_fallback_solver,omitempty"`
 	WallS        float64        `json:"wall_s"`
 	Reached      map[string]int `json:"reached"`
 	Cut          int            `json:"paths_cut"`
@@ -427,7 +444,7 @@ func cmdCheck(args []string) int {
 	}
 	rp := &replayer{}
 	defer rp.cleanup()
-	os.MkdirAll(filepath.Join(verifDir, "replays", prop), 0o755)
+	os.MkdirAll(filepath.Join(outDir, "replays", prop), 0o755)
 
 	var sums []exploreSummary
 	funcs := map[string]int64{}
@@ -455,7 +472,7 @@ func cmdCheck(args []string) int {
 		res := interp.Explore(h, opt)
 		sm := exploreSummary{ID: e.ID, Harness: e.Pkg + "." + e.Fn, Params: e.Params, Bounds: e.Bounds, Paths: res.Paths, Completed: res.Completed, Pruned: res.Pruned,
 			Asserts: res.Asserts, Discharged: res.Discharged, Decisions: res.Decisions, Steps: res.Steps, Queries: res.SolverQueries,
-			SolverS: res.SolverTime.Seconds(), MaxQueryS: res.MaxQuery.Seconds(), WallS: res.Wall.Seconds(), Reached: res.Reached, Cut: res.BudgetCuts,
+			SolverS: res.SolverTime.Seconds(), MaxQueryS: res.MaxQuery.Seconds(), Fallbacks: res.Fallbacks, WallS: res.Wall.Seconds(), Reached: res.Reached, Cut: res.BudgetCuts,
 			Unsupported: res.Unsupported, Inconclusive: res.Inconclusive, Violations: len(res.Violations), Cases: len(res.DistinctCases)}
 		for k, v := range res.Funcs {
 			funcs[k] += v
@@ -498,7 +515,7 @@ func cmdCheck(args []string) int {
 			}
 			rf := &ReplayFile{Property: prop, Pkg: e.Pkg, Harness: e.Fn, Label: v.Label, Tag: v.Tag, Kind: v.Kind, Detail: v.Detail, Inputs: v.Inputs, Params: e.Params, Choices: choiceMap(v)}
 			name := fmt.Sprintf("%s__%s__%s.json", e.ID, sanitize(v.Label), sanitize(v.Tag))
-			path := filepath.Join(verifDir, "replays", prop, name)
+			path := filepath.Join(outDir, "replays", prop, name)
 			b, _ := json.MarshalIndent(rf, "", " ")
 			os.WriteFile(path, b, 0o644)
 			// try up to 3 witnesses of the class
@@ -648,13 +665,24 @@ func matchFinding(fs []Finding, prop, harness, label, tag, explID string) *Findi
 }
 
 // validateTrace runs the harness with pinned inputs symbolically-concretely and natively and compares vxObserve logs.
-func validateTrace(h *interp.Harness, rp *replayer, prop string, e Exploration, fixed map[string]string, workers int) (bool, string) {
-	opt := interp.Options{Workers: 1, Params: e.Params, Fixed: fixed, MaxSteps: e.MaxSteps}
+func validateTrace(h *interp.Harness, rp *replayer, prop string, e Exploration, vector map[string]string, workers int) (bool, string) {
+	// entries "choice:<name>" pin vxChoose values, all others are nondet inputs
+	fixed := map[string]string{}
+	choices := map[string]int{}
+	for k, v := range vector {
+		if strings.HasPrefix(k, "choice:") {
+			n, _ := strconv.Atoi(v)
+			choices[strings.TrimPrefix(k, "choice:")] = n
+		} else {
+			fixed[k] = v
+		}
+	}
+	opt := interp.Options{Workers: 1, Params: e.Params, Fixed: fixed, FixedChoices: choices, MaxSteps: e.MaxSteps}
 	res := interp.Explore(h, opt)
 	if len(res.Observes) == 0 {
 		return false, "no observations from interpreter"
 	}
-	rf := &ReplayFile{Property: prop, Pkg: e.Pkg, Harness: e.Fn, Kind: "observe", Inputs: fixed, Params: e.Params, Choices: map[string]int{}}
+	rf := &ReplayFile{Property: prop, Pkg: e.Pkg, Harness: e.Fn, Kind: "observe", Inputs: fixed, Params: e.Params, Choices: choices}
 	path := filepath.Join(os.TempDir(), fmt.Sprintf("vxval-%d.json", os.Getpid()))
 	defer os.Remove(path)
 	b, _ := json.Marshal(rf)
@@ -741,8 +769,8 @@ func writeEvidence(prop, tier string, pc PropCfg, sums []exploreSummary, funcs m
 		"violations":  violations,
 	}
 	b, _ := json.MarshalIndent(ev, "", " ")
-	os.MkdirAll(filepath.Join(verifDir, "evidence"), 0o755)
-	os.WriteFile(filepath.Join(verifDir, "evidence", prop+".json"), b, 0o644)
+	os.MkdirAll(filepath.Join(outDir, "evidence"), 0o755)
+	os.WriteFile(filepath.Join(outDir, "evidence", prop+".json"), b, 0o644)
 }
 
 // ---------------------------------------------------------------- replay subcommand
